@@ -21,8 +21,43 @@ import itertools
 from vc import extract
 from vc.report import bounded
 
-P, D, PAT = "d/f.txt", "d/", "d/*.txt"
-MENU = [("static", P), ("out", P), ("vol", P), ("amend_out", P), ("amend_vol", P), ("tree", D), ("glob", PAT)]
+P, D, PAT, PAT2 = "d/f.txt", "d/", "d/*.txt", "*/f.txt"
+MENU = [("static", P), ("out", P), ("vol", P), ("amend_out", P), ("amend_vol", P), ("tree", D), ("glob", PAT),
+        ("glob", PAT2)]
+PRODUCTS = ("out", "vol", "amend_out", "amend_vol")
+
+
+def claimant(decl, creator):
+    """Who holds the declaration: the declaring creator, a step of its own (define_step), or its amending step."""
+    kind = decl[0]
+    if kind in ("out", "vol"):
+        return ("own-step", id(decl))  # a step defined for this declaration alone
+    if kind in ("amend_out", "amend_vol"):
+        return ("amender", creator)
+    return ("creator", creator)
+
+
+def role(decl):
+    return {"static": "static", "out": "output", "amend_out": "output", "vol": "volatile", "amend_vol": "volatile"}.get(decl[0])
+
+
+def conflicting(a, ca, b, cb, same_object):
+    """Spec (the property's sentence): do the two declarations conflict?  `same_object`: b is a itself, repeated."""
+    ka, kb = a[0], b[0]
+    files = ("static",) + PRODUCTS
+    if ka in files and kb in files:
+        if same_object and ka in ("out", "vol"):
+            return None  # the same step defined twice: a duplicate step, not decided here
+        same_claimant = (claimant(a, ca)[0] != "own-step" and claimant(a, ca) == claimant(b, cb))
+        return not (same_claimant and role(a) == role(b))
+    if "tree" in (ka, kb) and (ka in files or kb in files):
+        t, f, ct, cf = (a, b, ca, cb) if ka == "tree" else (b, a, cb, ca)
+        return not (f[0] == "static" and ct == cf)
+    if ka == "tree" and kb == "tree":
+        return ca != cb
+    if "glob" in (ka, kb) and (ka in PRODUCTS or kb in PRODUCTS):
+        return True  # both patterns of the menu match d/f.txt
+    return False
 
 
 def _mods():
@@ -159,9 +194,9 @@ def _recycle(m, x, y):
 
 
 @bounded("declaration_histories", props=["C08"],
-         bound="exhaustive over a menu of 7 declarations (static / output / volatile output / amended output / amended "
-               "volatile output on d/f.txt, static tree d/, glob d/*.txt) and 2 creators: every ordered pair in both "
-               "orders, every declaration repeated by its creator, and every pair (X by a sub-plan's step, Y by the plan) "
+         bound="exhaustive over a menu of 8 declarations (static / output / volatile output / amended output / amended "
+               "volatile output on d/f.txt, static tree d/, globs d/*.txt and */f.txt) and 2 creators: every ordered pair "
+               "in both orders against the property's conflict predicate, every declaration repeated by its creator, and every pair (X by a sub-plan's step, Y by the plan) "
                "through a plan rerun with full recycling, against the same plan from scratch; real Workflow, in-memory "
                "database")
 def declaration_histories(tier, seed):
@@ -183,11 +218,16 @@ def declaration_histories(tier, seed):
             if ab[0] != "accepted" or ba[0] != "accepted":
                 failures.append(dict(kind="first-declaration-not-accepted", a=a, b=b, creators=(ca, cb), ab=ab, ba=ba))
                 continue
+            expect = conflicting(a, ca, b, cb, a == b and ca == cb)
+            for (x, cx, y, cy, res) in ((a, ca, b, cb, ab), (b, cb, a, ca, ba)):
+                if expect is not None and (res[1] != "accepted") != expect:
+                    failures.append(dict(kind="oracle", first=f"{x[0]}({x[1]}) by {cx}", second=f"{y[0]}({y[1]}) by {cy}",
+                                         conflicting=expect, got=res[1]))
+                if a == b and ca == cb:
+                    break
             if (ab[1] == "accepted") != (ba[1] == "accepted"):
                 failures.append(dict(kind="order", first=f"{a[0]}({a[1]}) by {ca}", second=f"{b[0]}({b[1]}) by {cb}",
                                      a_then_b=ab[1], b_then_a=ba[1]))
-            if a == b and ca == cb and ab[1] != "accepted":
-                failures.append(dict(kind="repeat", decl=f"{a[0]}({a[1]}) by {ca}", second=ab[1]))
     for x in MENU:
         for y in MENU:
             inc, scr = _recycle(m, x, y)
